@@ -217,6 +217,25 @@ def do_annassign(tree):
   T().visit(tree)
 
 
+def do_attrs(tree):
+  """Renames one private instance attribute per class (the first one stored in the class): self._x -> self._x_rn, everywhere in the file."""
+  for st in tree.body:
+    if isinstance(st, ast.ClassDef):
+      first = None
+      for m in st.body:
+        if isinstance(m, FN) and m.args.args:
+          for n in ast.walk(m):
+            if isinstance(n, ast.Attribute) and isinstance(n.ctx, ast.Store) and isinstance(n.value, ast.Name) and n.value.id == m.args.args[0].arg \
+                and n.attr.startswith('_') and not n.attr.startswith('__'):
+              first = first or n.attr
+      if first:
+        for n in ast.walk(tree):
+          if isinstance(n, ast.Attribute) and n.attr == first:
+            n.attr = first + '_rn'
+          elif isinstance(n, ast.Constant) and n.value == first:
+            n.value = first + '_rn'
+
+
 def main():
   mode = sys.argv[1]
   files = sys.argv[2:] or CORE
@@ -231,6 +250,7 @@ def main():
       elif mode == 'swapif': do_swapif(tree)
       elif mode == 'fstring': do_fstring(tree)
       elif mode == 'hints': do_hints(tree)
+      elif mode == 'attrs': do_attrs(tree)
       elif mode == 'annassign': do_annassign(tree)
       elif mode == 'guard': do_guard(tree)
       elif mode == 'kwcalls': do_kwcalls(tree)
